@@ -600,6 +600,7 @@ def taylor_spec(ctx, name, symbols, eps, code, spec_coeffs, order, domain=None, 
     state.restore()
     multi = len(runs) > 1
     main_got = main_coeffs = None
+    discontinuous = []
     for kpath, (conds, (got, divs)) in enumerate(runs):
         tag = ".path%d" % kpath if multi else ""
         pts = wit = None
@@ -667,9 +668,45 @@ def taylor_spec(ctx, name, symbols, eps, code, spec_coeffs, order, domain=None, 
                 else:
                     nf = (lambda p, _i=i, _k=k: native_fn(p, _i, _k)) if not post else None
                 ctx.from_verdict("%s[%s].o%d%s" % (name, cn, k, tag), kind, v, nf)
+                if v.status == "undecided" and any(w_ in (v.detail or "") for w_ in ("floor(", "ceiling(", "sign(")):
+                    discontinuous.append("%s[%s].o%d%s" % (name, cn, k, tag))
         if crosscheck and post is None and not conds:
             # cross-check the eps-dependent expression itself at small random eps
             cross_check(ctx, name, base, ncode, got, dome, py=py, tol=cc_tol, atol=cc_atol)
+    if discontinuous and post is None:
+        # The executed expression contains a step function (a rounding, a fold) of the inputs: Taylor's theorem -- the link
+        # between the coefficient identities and "to first order" -- needs a smooth map, and the normal form cannot take the term.
+        # The coefficients agree almost everywhere; what can be wrong is the behaviour ACROSS a step.  Bounded native search for
+        # an input (ends of the ranges at every scale, perturbations of both signs and all sizes) where the real code leaves
+        # the Taylor polynomial the contract demands; a hit is a violation with its input, a miss leaves the cells undecided.
+        import random as _random
+        rng_ = _random.Random(ctx.seed + 17)
+        hit, tried = None, 0
+        t_f = time.time()
+        try:
+            for pt in paths.candidates(base, dome, rng_, field.DEFAULT_BOX, eps=eps, primed=None, n_base=400):
+                tried += 1
+                if tried > 8000 or time.time() - t_f > 60:
+                    break
+                e_ = pt.get(eps.name, 0.0)
+                if e_ == 0.0:
+                    continue
+                v_ = {s_.name: pt[s_.name] for s_ in symbols}
+                try:
+                    state.restore()
+                    bad_ = model_misfit(v_, e_, flat_float(code(dict(v_, **{eps.name: e_}))))
+                except Exception:
+                    continue
+                if bad_:
+                    hit = dict(inputs=dict(v_, **{eps.name: e_}), cells=[b_[0] for b_ in bad_][:6], real_code=[b_[1] for b_ in bad_][:6],
+                               contract_demands_up_to_next_order=[b_[2] for b_ in bad_][:6], points_tried=tried)
+                    break
+        finally:
+            state.restore()
+        if hit is not None:
+            ctx.add(Ob(name + ".across_a_step", kind, "failed", "bounded native falsification (inputs next to a step of the executed expression)", time.time() - t_f,
+                       "the code rounds / folds a quantity that depends on the inputs (%s); next to a step the real output leaves the Taylor polynomial the contract demands" % ", ".join(discontinuous[:3]),
+                       cex=hit, native=dict(reproduced=True, **hit)))
     if main_got is None:
         ctx.add(Ob(name + ".paths", "guard", "error", "path-enumeration", time.time() - t0, "no executable path of the claim had a witness input"))
         return None
